@@ -161,6 +161,33 @@ def aggregateOrig (counts : List Int) (gens : List DsGen) : Option (Nat × List 
 def aggregate (counts : List Int) (gens : List DsGen) : Option (Nat × List (Nat × Nat)) :=
   if gens.length ≠ counts.length then none else aggLoop 0 [] counts gens
 
+
+/-! ## §2c  `Analysis.generate_signal_events`: the caller's `sig_kwargs` dictionary as state
+
+The dictionary object handed in by the caller is modified in place (`sig_kwargs.update(mean=mean_n_sig)`) and the
+callers in `skyllh/core/utils/analysis.py` define it once and reuse it for a scan over several `mean_n_sig`
+values, so it is *state shared between calls*.  Only the entry that matters is kept: the `mean` that will be
+handed to the signal generator (`none` = no such key). -/
+
+/-- one call: `mean_n_sig == 0` returns early and leaves the dictionary alone; otherwise the key is overwritten
+and the generator is called with the dictionary.  -> (dictionary after the call, mean handed to the generator;
+`none` = generator not called) -/
+def kwCall (kw : Option Int) (meanReq : Int) : Option Int × Option Int :=
+  if meanReq = 0 then (kw, none) else (some meanReq, some meanReq)
+
+/-- a variant that only fills the key in when it is missing (`setdefault`) — not the code; kept for the
+counterexample -/
+def kwCallSetdefault (kw : Option Int) (meanReq : Int) : Option Int × Option Int :=
+  if meanReq = 0 then (kw, none)
+  else match kw with
+    | some m => (some m, some m)
+    | none => (some meanReq, some meanReq)
+
+/-- a history of calls that all receive the *same* dictionary object -/
+def kwHistory (call : Option Int → Int → Option Int × Option Int) : Option Int → List Int → List (Option Int)
+  | _, [] => []
+  | kw, r :: rs => (call kw r).2 :: kwHistory call (call kw r).1 rs
+
 /-- round half to even on ℚ (`np.round`) -/
 def rintQ (q : Rat) : Int :=
   let f := q.floor
